@@ -120,7 +120,7 @@ def check(pid, tier, seed):
             s0 = g.states[g.edges[path[0]][0]]
             k = int(prob.split()[1]) if prob.startswith("step ") and prob.split()[1].isdigit() else len(ops) - 1
             verdict.violation("file[pal=%d,mult=%d] %s" % (pal, mult, " ".join(prob.split()[2:8])), prob,
-                              {"component": "file", "palette": pal, "multiplicity": mult, "initial": {"kind": s0["kind"], "content": sy(s0["content"])}, "history": ops[:k + 1]})
+                              {"component": "file", "xid": xid, "palette": pal, "multiplicity": mult, "initial": {"kind": s0["kind"], "content": sy(s0["content"])}, "history": ops[:k + 1]})
     log("[%s] graph %d states / %d edges, %d executions" % (pid, len(g.states), len(g.edges), len(meta)))
     some = list(meta)[:2]
     cov = {"evaluations": len(meta), "distinct_nontrivial": len(seen),
@@ -131,3 +131,13 @@ def check(pid, tier, seed):
     rc = verdict.finish()
     common.write_evidence(pid, tier, seed, "exploration", cov, ASSUMPTIONS, time.time() - t0, len(verdict.violations))
     return rc
+
+
+def all_harnesses():
+    exe = harness()
+    return {exe.name: exe}
+
+
+def replay(pid, path):
+    import sys
+    return common.replay(pid, path, sys.modules[__name__])
